@@ -65,7 +65,9 @@ def hunk_st(draw, max_body=8):
                                            100001])),
         'body': body,
         'context': draw(st.sampled_from([None, None, b'def f():', b'',
-                                         b'@@ nested @@', b'class X:'])),
+                                         b'@@ nested @@', b'class X:',
+                                         b'@@count += 1',
+                                         b'SELECT @@ROWCOUNT'])),
         'omit_one': [draw(st.booleans()), draw(st.booleans())],
     }
 
